@@ -9,7 +9,7 @@ use ecow::EcoString;
 use scope::ScopeKind;
 use syntax::{
     ast::{self, AstNode},
-    parser::TextRange,
+    parser::{TextRange, TextSize},
     SyntaxNodePtr,
 };
 
@@ -180,9 +180,9 @@ impl Indexable for ast::Def {
             ctx.symbol_map.defset(*defset_id).define_loc.file == ctx.current_file_id()
         });
 
-        let def_id = match self.name() {
-            Some(name_value) => {
-                let (name, define_loc) = index_name_value(name_value, ctx)?;
+        // a name that is computed (`def !strconcat(..)`, `def "a" # b`) makes an anonymous record
+        let def_id = match self.name().and_then(|name_value| index_name_value(name_value, ctx)) {
+            Some((name, define_loc)) => {
                 let def = Record::new(name, RecordKind::Def, define_loc);
                 let def_id = if ctx.scopes.current_multiclass_id().is_some() {
                     ctx.symbol_map.add_multiclass_def(def)
@@ -218,6 +218,17 @@ fn index_name_value(value: ast::Value, ctx: &mut IndexCtx) -> Option<(EcoString,
     let name = value.inner_values().next()?;
     match name.simple_value()? {
         ast::SimpleValue::Identifier(id) => utils::identifier(&id, ctx),
+        // `def "name"`: the name is what stands between the quotes of a single string
+        ast::SimpleValue::String(string) if value.inner_values().count() == 1 => {
+            let name = string.value();
+            let range = string.syntax().first_token()?.text_range();
+            let inner = TextRange::new(
+                range.start() + TextSize::from(1),
+                range.end().checked_sub(TextSize::from(1))?,
+            );
+            (!name.is_empty() && usize::from(inner.len()) == name.len())
+                .then(|| (name, FileRange::new(ctx.current_file_id(), inner)))
+        }
         _ => None,
     }
 }
@@ -229,9 +240,8 @@ impl Indexable for ast::Defm {
             ctx.symbol_map.defset(*defset_id).define_loc.file == ctx.current_file_id()
         });
 
-        let defm_id = match self.name() {
-            Some(name_value) => {
-                let (name, define_loc) = index_name_value(name_value, ctx)?;
+        let defm_id = match self.name().and_then(|name_value| index_name_value(name_value, ctx)) {
+            Some((name, define_loc)) => {
                 let defm = Defm::new(name, define_loc);
                 ctx.symbol_map.add_defm(defm, defset_id.is_none())
             }
